@@ -131,6 +131,7 @@ pub fn run_churn(w: &mut dyn WorldApi, g: &mut Gen, ev: &mut Ev, cycles: u64, wi
     w.reset(1, 1);
     let slot = Slot::Map(0);
     let ws: Vec<EP> = (0..48).map(|_| g.random_uni()).collect();
+    let value_skew = w.value_accounting().map_or(0, |(l, p)| l - p as i64);
     let mut hw = 1usize;
     let mut series: Vec<(u64, usize, usize)> = Vec::new();
     let mut ops = 0u64;
@@ -203,6 +204,14 @@ pub fn run_churn(w: &mut dyn WorldApi, g: &mut Gen, ev: &mut Ev, cycles: u64, wi
             if !with_remove_children && w.len(slot).0 == 0 && reach != 1 {
                 ev.violation("C16/churn/emptied-map-keeps-nodes", format!("[{}] emptied map has {} reachable nodes", w.kind(), reach), replay.clone());
                 return;
+            }
+            if let Some((alive, phys)) = w.value_accounting() {
+                ev.count("churn/value_accounting_checks", 1);
+                if alive - phys as i64 != value_skew {
+                    let kind = if alive - phys as i64 > value_skew { "leaked" } else { "owned-twice" };
+                    ev.violation(&format!("C16/churn/values/{}", kind), format!("[{}] after {} churn cycles ({} operations): {} values alive in the process, {} held in the arena (difference at start: {})", w.kind(), c, ops, alive, phys, value_skew), replay.clone());
+                    return;
+                }
             }
             let live = live_bytes();
             series.push((c, a.arena_len, live));
